@@ -3,7 +3,9 @@
 extract   : per-layout tables (nominal positions, zone-exclusion priority groups, channel-lock priorities,
             allocentric positions) -> lean/Earverif/Gen/C13_Tables.lean (re-checked by `decide +kernel`)
 correspond: get_excluded / downmix_for_excluded / ZoneExclusionHandler.handle / allocentric.get_excluded /
-            channel_priority / ChannelLockHandler*.handle / scale_az_el  vs the Lean models (c13driver)
+            channel_priority / ChannelLockHandler*.handle / scale_az_el / whole Cartesian renders (renderCartLock) /
+            whole polar renders (renderPolar on captured pans and divergence weights; renderPolarLock: lock -> pan ->
+            zone downmix)  vs the Lean models (c13driver)
 search    : the property evaluated on GainCalc(layout).render(...) alone (see c13_search.py)
 """
 import itertools
@@ -57,11 +59,14 @@ def layout_tables(lay):
     prio = [int(p) for p in ego.channel_priority]
     azel = [[float(c.polar_position.azimuth), float(c.polar_position.elevation)] for c in lay.channels]
     allo = [[float(v) for v in row] for row in allocentric.positions_for_layout(lay)]
+    # what EgoChannelLockHandler measures distances to (layout.norm_positions)
+    norm = [[float(v) for v in row] for row in np.asarray(ego.channel_positions, dtype=float)]
     from ear.core.point_source import AllocentricPanner
 
     tree = [[[int(leaf[0]) for leaf in row] for row in pl]
             for pl in AllocentricPanner(allocentric.positions_for_layout(lay)).st]
-    return dict(tree=tree, n=n, names=list(lay.channel_names), spk=spk, groups=groups, prio=prio, azel=azel, allo=allo)
+    return dict(tree=tree, n=n, names=list(lay.channel_names), spk=spk, groups=groups, prio=prio, azel=azel, allo=allo,
+                norm=norm)
 
 
 def groups_tokens(groups):
@@ -91,6 +96,19 @@ class C13(Spec):
             "allo_exact_at_speaker_layouts", "polar_tables_every_speaker_is_vertex", "polar_lock_one_speaker_partial",
             "polar_lock_one_speaker_quad_partial", "interp4_identity", "compensate_identity_without_U045",
             "compensate_identity_at_el0",
+            # round 7 (audit): nearest/ties-by-priority attached to what renders (lockHandle over R, by loudspeaker
+            # index); the polar path in the real order lock -> pan -> zone downmix (renderPolarLock); "as if unlocked"
+            # and Cartesian silence composed; witnesses with gains; get_excluded mask specification
+            "lockHandle_spec", "lockHandle_nearest", "lockHandle_unchanged_iff", "lockHandle_never_error",
+            "lockHandle_no_limit_locks", "nearestByRule_unique", "lock_at_speaker", "lock_at_speaker_table",
+            "tables_lock_ok", "renderCartLock_parts", "cart_lock_unchanged_renders_as_unlocked", "cart_lock_limit",
+            "cart_lock_excluded_gain_zero", "cart_lock_defined", "polar_lock_defined", "cart_zone_not_silent_gain_witness",
+            "polar_lock_with_zones_characterised", "polar_lock_power", "polar_lock_one_speaker",
+            "polar_lock_unchanged_renders_as_unlocked", "polar_lock_limit", "polar_lock_zone_two_speakers_witness",
+            "polar_lock_one_speaker_layouts_partial",
+            "downmixForExcluded_cast", "alloExcluded_cast", "getExcluded_spec", "zoneMatch_cart_spec", "whileLoop_spec",
+            "insideAngleRange_spec", "zoneMatch_polar_spec",
+            "screen_position_identity",
         )
     )
     trusted_base = (
@@ -98,8 +116,13 @@ class C13(Spec):
         "ZoneExclusionHandler.get_excluded/handle, geom.inside_angle_range, ZoneExclusionDownmix.downmix_for_excluded, "
         "allocentric.get_excluded, GainCalc.render's mask use, ChannelLockHandlerBase.__init__/handle, np.interp on 4 "
         "points and PolarScreenScaler.scale_az_el; tied to the code by the correspondence on every run",
-        "the panners (point source, polar extent, allocentric, allo_extent) are parameters of the model: arbitrary "
-        "gain vectors of the right length",
+        "the panners (point source, polar extent, allo_extent) are parameters of the model: arbitrary gain vectors of "
+        "the right length; in renderPolarLock the panner is a function parameter `pan` (theorem hypothesis: exact at "
+        "the locked loudspeaker, i.e. C05 exactness at a vertex), closed in the driver with the (position, gains) "
+        "pairs captured from inside the real render call; the polar/Cartesian conversions of scale_position are "
+        "parameters of scalePosition (C19)",
+        "theorems over R use the tolerance 1e-5 / 1e-6 as real numbers; the Float/Rat instances use the doubles' exact "
+        "values (boundary behaviour within 1 ulp of a threshold is covered by the correspondence, not by the R theorems)",
         "IEEE-754 binary64: x*(+-0) = +-0 for finite x, (+-0)+(+-0) = +-0, sqrt(+-0) = +-0 - the zero-gain theorems are "
         "proved for any scalar type with these laws (instance: the reals) and the laws are sampled on doubles in "
         "the correspondence (Lean `Float` is opaque to the kernel)",
@@ -115,6 +138,12 @@ class C13(Spec):
         "inside_angle_range loops |end-start|/360 times and does not terminate once `x - 360.0 == x` (>= ~1e17)",
         "polar object distance <= 1e6: for distances above ~1e11 `min_dist + tol` rounds to `min_dist`, the candidate "
         "set is empty and ChannelLockHandlerBase.handle raises ValueError (reported separately, probed once per run)",
+        "'within maxDistance' is, in the code, in the model and in every theorem, the strict comparison "
+        "`unweighted distance < maxDistance + 1e-5` (LockCandidate); the search stays 1e-9 away from that threshold",
+        "polar objects with channelLock AND zoneExclusion: the code locks among ALL loudspeakers and applies the zone "
+        "downmix afterwards (order of the Recommendation); when the locked loudspeaker is excluded the result is its "
+        "downmix row - recorded as known finding polar-lock-zone-downmix (classifier recomputed in the harness from "
+        "the documented group keys), every other deviation is an unlisted hit",
         "'exactly one loudspeaker' is checked as: the locked loudspeaker carries the whole gain and every other "
         "gain is <= 1e-9 (the polar point-source panner returns ~1e-17 residues at a loudspeaker position; its "
         "exactness is C05's subject)",
@@ -130,7 +159,11 @@ class C13(Spec):
         "allocentric.get_excluded; generated zone lists (random boxes/ranges, boxes and ranges pinned to loudspeaker "
         "coordinates with offsets 0, +-1e-6 +- 1ulp, wrap-around azimuth ranges, poles); lock positions (random, on "
         "loudspeakers, midpoints/exact ties, maxDistance at the boundary +- ulps); screens (polar/Cartesian) x az/el "
-        "incl. the table points. search: rendered gains on all ten layouts, single blocks and sequences of 2..6 blocks "
+        "incl. the table points; whole polar renders: extent / divergence / zones / lock objects with the per-position gains "
+        "and divergence weights captured inside the real render (op rp) and point objects with lock and zones through "
+        "renderPolarLock (op rpl). search: polar lock objects now also carry zone lists (45%; half of them a range "
+        "around the nearest loudspeaker so that the locked loudspeaker is excluded), the deterministic witness of "
+        "polar_lock_zone_two_speakers_witness is rendered on every run; rendered gains on all ten layouts, single blocks and sequences of 2..6 blocks "
         "on one shared GainCalc instance (equal zone lists recurring across polar/Cartesian blocks, alternating lock, "
         "the known finding's trigger first) each compared exactly with the same block on a fresh instance, see distribution; a case is one "
         "(layout, function, input) tuple; non-trivial = the input exercises the feature (non-empty zone list / lock set / "
@@ -151,7 +184,8 @@ class C13(Spec):
             "",
             "/-- A layout as the gain calculator sees it (no LFE). Floats are exact `(numerator, denominator)` pairs.",
             "`spk`: nominal x y z azimuth elevation; `azel`: real azimuth elevation; `allo`: allocentric x y z;",
-            "`tree`: channel indices of `AllocentricPanner(positions_for_layout(layout)).st` (planes / rows / leaves). -/",
+            "`tree`: channel indices of `AllocentricPanner(positions_for_layout(layout)).st` (planes / rows / leaves);",
+            "`norm`: `layout.norm_positions` x y z (the positions of `EgoChannelLockHandler`). -/",
             "structure Layout where",
             "  name : String",
             "  n : Nat",
@@ -161,6 +195,7 @@ class C13(Spec):
             "  azel : List (List (Int × Nat))",
             "  allo : List (List (Int × Nat))",
             "  tree : List (List (List Nat))",
+            "  norm : List (List (Int × Nat))",
             "",
         ]
         names = []
@@ -176,6 +211,7 @@ class C13(Spec):
                            % (L, i, ", ".join("[" + ", ".join(map(str, g)) + "]" for g in t["groups"][i])))
                 out.append("def %s_azel_%d : List (Int × Nat) := [%s]" % (L, i, ", ".join(rat_pair(v) for v in t["azel"][i])))
                 out.append("def %s_allo_%d : List (Int × Nat) := [%s]" % (L, i, ", ".join(rat_pair(v) for v in t["allo"][i])))
+                out.append("def %s_norm_%d : List (Int × Nat) := [%s]" % (L, i, ", ".join(rat_pair(v) for v in t["norm"][i])))
             rng = range(t["n"])
             out.append("/-- %s: %s -/" % (name, " ".join(t["names"])))
             out.append("def %s : Layout where" % L)
@@ -188,6 +224,7 @@ class C13(Spec):
             out.append("  allo := [%s]" % ", ".join("%s_allo_%d" % (L, i) for i in rng))
             out.append("  tree := [%s]" % ", ".join(
                 "[" + ", ".join("[" + ", ".join(map(str, row)) + "]" for row in pl) + "]" for pl in t["tree"]))
+            out.append("  norm := [%s]" % ", ".join("%s_norm_%d" % (L, i) for i in rng))
             out.append("")
             ctx.count("extract:%s channels" % name, t["n"])
             ctx.count("extract:%s groups" % name, sum(len(g) for g in t["groups"]))
@@ -234,6 +271,7 @@ class C13(Spec):
                             120 if quick else 1500)
             self._corr_speaker_tree(ctx, ask, name, t, 600 if quick else (1 << 13 if n <= 13 else 8000))
             self._corr_render_cart(ctx, ask, name, t, allocentric, 60 if quick else 800)
+            self._corr_render_polar(ctx, ask, name, t, 24 if quick else 400)
         self._corr_downmix_synthetic(ctx, ask, 300 if quick else 4000)
         self._corr_allo_synthetic(ctx, ask, allocentric, 300 if quick else 4000)
         self._corr_priority(ctx, ask, EgoChannelLockHandler, 40 if quick else 400)
@@ -649,6 +687,150 @@ class C13(Spec):
 
             ask(line, check)
 
+    def _corr_render_polar(self, ctx, ask, name, t, count):
+        """Whole `GainCalc.render` for POLAR objects against the model of the polar tail.
+
+        `rp`  (every object kind: extent, divergence, zones, lock): the per-position gains and the divergence weights
+              are captured from inside the real `render` call (the extent panner and `diverge` are wrapped while it
+              runs), and `renderPolar` on them - power sum, zone downmix, nan_to_num, gain, split - must reproduce the
+              rendered direct/diffuse gains; the zone mask comes from the model's own `getExcluded` via `rpl` below or
+              from the real `get_excluded` (itself tied by `ge`).
+        `rpl` (point objects with channel lock, with and without zones): `renderPolarLock` - lock on ALL loudspeakers
+              -> pan -> zone downmix - computes mask, lock outcome and gains itself; its panner parameter is closed
+              with the (position, gains) pairs captured from the real call, so a model that locked to another
+              loudspeaker than the code finds no entry and answers `none`."""
+        import sys
+
+        rng = ctx.rng
+        gc, lay, _t = S._gain_calc(name)
+        gcmod = sys.modules[type(gc).__module__]
+        n = t["n"]
+        gtok = groups_tokens(t["groups"])
+        rows = " ".join(" ".join(fb(v) for v in t["spk"][i]) + " " + " ".join(fb(v) for v in t["norm"][i]) + " %d" % t["prio"][i]
+                        for i in range(n))
+        for k in range(count):
+            point = k % 2 == 0
+            zones = []
+            if rng.random() < 0.7:
+                zones, _k = S.gen_zone_list(rng, t)
+            near = rng.randrange(n) if rng.random() < 0.5 else None
+            o = dict(layout=name, cartesian=False, position=S.gen_position(rng, t, False, near), zones=zones,
+                     gain=rng.choice([1.0, rng.uniform(0.1, 2.0)]), diffuse=rng.choice([0.0, 0.0, rng.random()]))
+            feat = "point"
+            if point:
+                P = np.array(t["norm"], dtype=float)
+                from ear.core.geom import cart as to_cart
+
+                p = to_cart(o["position"]["azimuth"], o["position"]["elevation"], o["position"]["distance"])
+                lock, _lk = S.gen_lock(rng, P, list(p), [False] * n, "e")
+                o["lock"] = lock
+            else:
+                feat = S.gen_extent_div(rng, False, o)
+                if rng.random() < 0.3:
+                    o["lock"] = rng.choice([None, rng.uniform(0, 1.5)])
+            # capture what render hands to / gets from the extent panner and diverge
+            calls, dgs = [], []
+            real_handle = gc.polar_extent_panner.handle
+            real_diverge = gcmod.diverge
+
+            def rec_handle(position, width, height, depth, _h=real_handle):
+                out = _h(position, width, height, depth)
+                calls.append(([float(v) for v in position], [float(v) for v in out]))
+                return out
+
+            def rec_diverge(*a, _d=real_diverge, **kw):
+                g, ps = _d(*a, **kw)
+                dgs.append([float(v) for v in g])
+                return g, ps
+
+            gc.polar_extent_panner.handle = rec_handle
+            gcmod.diverge = rec_diverge
+            try:
+                try:
+                    d, f, _ok = S._render(gc, lay, o)
+                    real = ([float(x) for x in d], [float(x) for x in f])
+                except ValueError:
+                    real = "none"
+            finally:
+                del gc.polar_extent_panner.handle
+                gcmod.diverge = real_diverge
+            zmask = [bool(b) for b in gc.zone_exclusion_handler.get_excluded(S.zones_to_objects(zones))]
+            kind = "no zones" if not zones else ("none excluded" if not any(zmask) else
+                                                 "all excluded" if all(zmask) else "some excluded")
+
+            def compare(ans_d, ans_f, real=real):
+                return len(ans_d) == n and len(ans_f) == n and all(
+                    abs(a - b) <= 1e-12 and (a == 0.0) == (b == 0.0) for a, b in zip(ans_d + ans_f, real[0] + real[1]))
+
+            if real != "none" and len(dgs) == 1 and len(calls) == len(dgs[0]):
+                # np.apply_along_axis evaluates the first row once more to find the output shape on some numpy
+                # versions; only the last len(dg) calls are the rows of gains_for_each_pos
+                pans = [c[1] for c in calls[-len(dgs[0]):]]
+                line = "rp %d %s %s %d %s %s %s %s" % (
+                    n, mask_str(zmask), gtok, len(pans), " ".join(fb(v) for row in pans for v in row),
+                    " ".join(fb(v) for v in dgs[0]), fb(o["gain"]), fb(o["diffuse"]))
+
+                def check(ans, real=real, o=o, feat=feat, kind=kind, zmask=zmask, compare=compare):
+                    ctx.case(("rp", repr(o)), True,
+                             sample={"fn": "GainCalc.render (polar) vs renderPolar on captured pans", "object": o,
+                                     "zone_mask": mask_str(zmask)})
+                    ctx.count("render polar tail object:%s zones:%s" % (feat + ("+channelLock" if "lock" in o else ""), kind))
+                    ok = False
+                    if ans != "none":
+                        w = [unfb(x) for x in ans.split()]
+                        ok = compare(w[:n], w[n:])
+                    if ok:
+                        ctx.validated()
+                        if any(zmask) and not all(zmask):
+                            ctx.count("render polar tail: excluded entries compared for exact zero", sum(zmask))
+                    else:
+                        ctx.disagree("GainCalc.render (polar) vs renderPolar on the captured per-position gains", o, ans[:400], real)
+
+                ask(line, check)
+            else:
+                ctx.count("render polar tail: capture unusable (%s)" % ("render raised" if real == "none" else "call count"))
+            if point:
+                # panner table: exactly what the real render asked the panner
+                table = calls[-1:] if calls else []
+                ztok = []
+                for z in zones:
+                    if z["t"] == "c":
+                        ztok.append("c " + " ".join(fb(z[key]) for key in ("minX", "maxX", "minY", "maxY", "minZ", "maxZ")))
+                    else:
+                        ztok.append("p " + " ".join(fb(z[key]) for key in ("minAzimuth", "maxAzimuth", "minElevation", "maxElevation")))
+                lock = o["lock"]
+                ltok = "off" if lock == "off" else ("none" if lock is None else fb(lock))
+                line = "rpl %d %d %s %s %d %s %s %s %s %s %s %s %d %s" % (
+                    FUEL, n, rows, gtok, len(zones), " ".join(ztok), fb(p[0]), fb(p[1]), fb(p[2]), ltok, fb(o["gain"]),
+                    fb(o["diffuse"]), len(table),
+                    " ".join(" ".join(fb(v) for v in pos) + " " + " ".join(fb(v) for v in g) for pos, g in table))
+
+                def check2(ans, real=real, o=o, kind=kind, zmask=zmask, compare=compare, table=table):
+                    ctx.case(("rpl", repr(o)), o["lock"] != "off",
+                             sample={"fn": "GainCalc.render (polar, lock, zones) vs renderPolarLock", "object": o,
+                                     "zone_mask": mask_str(zmask)})
+                    if ans == "none" or real == "none":
+                        ok = ans == real
+                        res = "error"
+                    else:
+                        w = ans.split()
+                        res = {"U": "unchanged", "L": "locked", "E": "error"}[w[1][0]]
+                        ok = w[0] == mask_str(zmask) and compare([unfb(x) for x in w[2:2 + n]], [unfb(x) for x in w[2 + n:2 + 2 * n]])
+                        if ok and w[1][0] == "L":
+                            # the model locked to loudspeaker i: the position the real render handed to the panner is
+                            # that loudspeaker's norm_position
+                            i = int(w[1][1:])
+                            ok = bool(table) and table[0][0] == [float(v) for v in t["norm"][i]]
+                            if ok and zmask[i] and any(zmask) and not all(zmask):
+                                ctx.count("render polar+lock: locked loudspeaker is excluded (downmix row applied)")
+                    ctx.count("render polar+lock zones:%s -> %s" % (kind, res))
+                    if ok:
+                        ctx.validated()
+                    else:
+                        ctx.disagree("GainCalc.render (polar, lock, zones) vs renderPolarLock", o, ans[:400], real)
+
+                ask(line, check2)
+
     def _corr_compensate(self, ctx, ask, count):
         from ear.core.screen_common import compensate_position
         from ear.core import bs2051
@@ -698,6 +880,22 @@ class C13(Spec):
             el = min(90.0, max(-90.0, el))
             real = sc.scale_az_el(az, el)
             inp = {"ref": ref, "rep": rep, "az": az, "el": el}
+            if k % 4 == 0:
+                # scale_position is modelled as cart(*scale_az_el(azimuth(p), elevation(p)), |p|) with the conversions
+                # as parameters (`scalePosition`): the real method must be exactly that composition of the real
+                # conversions and the real scale_az_el
+                from ear.core.geom import azimuth, elevation, cart as to_cart
+
+                pv = to_cart(az, el, rng.choice([1.0, rng.uniform(0.1, 2.0)]))
+                comp = to_cart(*sc.scale_az_el(azimuth(pv), elevation(pv)), np.linalg.norm(pv))
+                got = sc.scale_position(pv)
+                ctx.case(("sp", repr(inp)), True)
+                ctx.count("scale_position == cart(scale_az_el(azimuth, elevation), norm) (structure of scalePosition)")
+                if np.array_equal(np.asarray(got), np.asarray(comp)):
+                    ctx.validated()
+                else:
+                    ctx.disagree("scale_position vs cart o scale_az_el o (azimuth, elevation, norm)", inp,
+                                 [float(v) for v in comp], [float(v) for v in got])
             line = "sc " + " ".join(fb(v) for v in (
                 r.left_azimuth, r.right_azimuth, r.bottom_elevation, r.top_elevation,
                 p.left_azimuth, p.right_azimuth, p.bottom_elevation, p.top_elevation, az, el))
@@ -749,35 +947,70 @@ class C13(Spec):
 SPEC = C13()
 
 REGISTRY = dict(
-    text="PARTIAL: Lean theorems over the transliterated models prove, for every mask, gain vector and every "
-    "priority-group structure whose groups cover all channels (kernel-checked for the ten regenerated layouts: "
-    "tables_groups_ok): downmix rows sum to 1, entries >= 0, excluded columns are zero (downmix_rows_sum_one, "
-    "downmix_nonneg, downmix_excluded_col_zero, downmix_defined), hence direct and diffuse gains of excluded "
-    "loudspeakers are exactly 0 on the polar path (polar_excluded_gain_zero) and on the Cartesian path for the final "
-    "mask (cart_excluded_gain_zero_on_final_mask); cart_reset_characterised proves that a zone-excluded loudspeaker "
-    "is missing from the final Cartesian mask exactly when the row extension covers every loudspeaker, and "
-    "cart_zone_not_silent_witness exhibits it on 0+7+0 (known finding cartesian-zone-extend-reset: the property is "
-    "false there, as in the Recommendation). Channel lock: lock_returns_speaker_position, lock_limit (nearest within "
-    "tol, best priority, within maxDistance or unchanged). Cartesian path composed (renderCartLock: get_excluded -> "
-    "row extension/reset -> lock on the final mask -> _speaker_tree/AllocentricPanner on positions[~excluded] -> "
-    "scatter -> gain split): cart_lock_target_not_excluded, allo_exact_at_speaker (for EVERY set of pairwise distinct "
-    "positions _speaker_tree builds a sorted grid and the panner returns e_k at positions[k]), hence "
-    "cart_lock_one_speaker with no panner hypothesis (gains = unit vector of the locked, non-excluded loudspeaker, "
-    "zeros elsewhere); tables_allo_ok ties the real grids to the model by decide. Polar path: "
-    "polar_lock_one_speaker_partial / polar_lock_one_speaker_quad_partial compose the lock with C05's "
-    "triplet_exact_at_vertex / quad_corner, remaining hypothesis: the first accepting region has the loudspeaker as "
-    "a vertex (every loudspeaker is a vertex of some region: polar_tables_every_speaker_is_vertex, reused from C05). "
-    "screen_identity (equal edges => scale_az_el = id); compensate_position modelled (identity without U+045 / at "
-    "elevation 0 and 90). Float rounding at thresholds, the polar panner's region order, downmix wrappers and the whole "
-    "GainCalc.render are covered by correspondence (all 2^n masks for n <= 12, boundary zones, ties, whole Cartesian "
-    "lock+zone renders against renderCartLock) and by the search on rendered gains.",
-    note="Trusted: Lean kernel; hand transliteration + correspondence; polar/extent panners as parameters; IEEE zero "
-    "laws sampled; C05 model and tables imported unchanged. Known finding: Cartesian objects when the row extension of "
-    "the zone mask covers all loudspeakers. Also noted: channelLock raises ValueError for distances above ~1e11; "
-    "inside_angle_range does not terminate for bounds >= ~1e17; the Cartesian screenRef path is conversion (C19) o "
-    "scale_az_el o compensate_position o conversion, not a no-op for layouts with U+045.",
-    technique="Lean 4 proofs over list models (induction, grind, Mathlib order lemmas over R) + decide +kernel over "
-    "regenerated layout tables + differential correspondence with the real functions and whole renders + "
-    "direct-predicate search on GainCalc.render",
+    text="PARTIAL: zones: full on the polar path; Cartesian: exactly characterised plus the recorded counter-example. "
+    "Lean theorems over the transliterated models prove, for every mask, gain vector and every priority-group structure "
+    "whose groups cover all channels (kernel-checked for the ten regenerated layouts: tables_groups_ok): downmix rows "
+    "sum to 1, entries >= 0, excluded columns are zero (downmix_rows_sum_one, downmix_nonneg, "
+    "downmix_excluded_col_zero, downmix_defined), hence direct and diffuse gains of excluded loudspeakers are exactly "
+    "0 on the polar path for every extent/divergence output (polar_excluded_gain_zero; renderPolar is run against the "
+    "real render on captured pans and divergence weights, op rp) and on the Cartesian path for the final mask "
+    "(cart_excluded_gain_zero_on_final_mask, composed: cart_lock_excluded_gain_zero - zero whenever the row extension "
+    "does not cover everything); cart_reset_characterised proves that a zone-excluded loudspeaker is missing from the "
+    "final Cartesian mask exactly when the row extension covers every loudspeaker; cart_zone_not_silent_witness and "
+    "cart_zone_not_silent_gain_witness exhibit it on 0+7+0 with the whole gain on a zone-excluded loudspeaker (known "
+    "finding cartesian-zone-extend-reset). get_excluded: getExcluded_spec (mask[i] <=> some zone's test matches "
+    "loudspeaker i), zoneMatch_cart_spec (box widened by 1e-6, strict), whileLoop_spec, insideAngleRange_spec (exact "
+    "arithmetic: true iff some representative x+360k lies in [start-tol, end'+tol], end' = end moved by whole turns "
+    "into [start, start+360]: wrap-around ranges, ranges past +-180, angles a turn off), zoneMatch_polar_spec (elevation "
+    "window and [pole or azimuth in range]); over the doubles these tests are executed and compared (Float model bit "
+    "for bit, plus an independent exact-rational membership spec in the harness). Channel lock, attached to what renders: lockHandle_spec / "
+    "lockHandle_nearest (over R, by loudspeaker index: the locked loudspeaker is a candidate - not excluded, unweighted "
+    "distance < maxDistance + 1e-5 - within 1e-5 of the minimal weighted distance and of best priority among those "
+    "within 1e-5 of the minimum: NearestByRule; nearestByRule_unique: determined, priorities are pairwise different - "
+    "tables_lock_ok), lockHandle_unchanged_iff, lockHandle_never_error, lockHandle_no_limit_locks, lock_at_speaker(_table) "
+    "(an object at a loudspeaker locks to it: loudspeakers are >= 1e-5 apart in both distance measures on all ten "
+    "layouts). Cartesian path composed (renderCartLock: get_excluded -> row extension/reset -> lock on the final mask "
+    "-> _speaker_tree/AllocentricPanner on positions[~excluded] -> scatter -> gain split): cart_lock_one_speaker with no "
+    "panner hypothesis (gains = unit vector of the loudspeaker NearestByRule selects among the loudspeakers left), "
+    "cart_lock_limit (with maxDistance: that, or exactly the unlocked render), "
+    "cart_lock_unchanged_renders_as_unlocked, cart_lock_defined (never vacuous: the final mask never excludes "
+    "everything). Polar path in the real order (renderPolarLock: lock among ALL loudspeakers -> pan -> zone downmix): "
+    "polar_lock_with_zones_characterised (gains = sqrt of the downmix row of the locked loudspeaker: non-negative, "
+    "power preserved - polar_lock_power -, zero on every excluded loudspeaker, = e_k when k is not excluded), "
+    "polar_lock_one_speaker, polar_lock_limit, polar_lock_unchanged_renders_as_unlocked, polar_lock_defined; the property's 'exactly one "
+    "loudspeaker' is FALSE on the polar path when the locked loudspeaker is excluded: "
+    "polar_lock_zone_two_speakers_witness (0+5+0, known finding polar-lock-zone-downmix). Remaining hypothesis of the "
+    "polar theorems: the panner returns e_k at loudspeaker k; polar_lock_one_speaker_partial / "
+    "polar_lock_one_speaker_quad_partial discharge it from C05's triplet_exact_at_vertex / quad_corner when the first "
+    "accepting region has the loudspeaker as a vertex (every loudspeaker is a vertex of some region: "
+    "polar_tables_every_speaker_is_vertex); polar_lock_one_speaker_layouts_partial states what is left with the "
+    "concrete C01/C05 panner pspHandle plugged in: pspHandle(position of loudspeaker k) = e_k, i.e. every region "
+    "tried before the first one containing k rejects that position (for QuadRegions a sign statement about "
+    "irrational quadratic roots; on 0+5+0 and 0+7+0 every loudspeaker's first accepting region is a quad), quadRoot "
+    "hits the corner value there, and the virtual-loudspeaker downmix keeps e_k (C05 proves totality and per-region "
+    "exactness). screenRef: screen_identity (equal edges => scale_az_el = id), "
+    "screen_position_identity (whole polar step scale_position = id given the C19 round trip of the conversions, "
+    "which are parameters); compensate_position modelled (identity without U+045 / at elevation 0 and 90). Float "
+    "rounding at thresholds, the polar panner's region order, downmix wrappers and the whole GainCalc.render are covered "
+    "by correspondence (all 2^n masks for n <= 12, boundary zones, ties, whole Cartesian renders against "
+    "renderCartLock, whole polar renders against renderPolar / renderPolarLock) and by the search on rendered gains "
+    "(polar lock + zones judged with an independent downmix-row classifier).",
+    note="Trusted: Lean kernel; hand transliteration + correspondence; polar/extent panners as parameters (closed with "
+    "captured values in the driver); IEEE zero laws sampled; C05 model and tables imported unchanged; R theorems use "
+    "1e-5/1e-6 as reals. Known findings: (1) Cartesian objects when the row extension of the zone mask covers all "
+    "loudspeakers; (2) polar objects with channelLock whose locked loudspeaker is zone-excluded (energy moved to its "
+    "downmix group). 'Within maxDistance' means distance < maxDistance + 1e-5. Also noted: channelLock raises "
+    "ValueError for distances above ~1e11; inside_angle_range does not terminate for bounds >= ~1e17; the Cartesian "
+    "screenRef path is conversion (C19) o scale_az_el o compensate_position o conversion, not a no-op for layouts "
+    "with U+045; ZoneExclusionDownmix groups targets with a 1e-6 tolerance but sorts the groups by the exact float keys, "
+    "so from T+000 on 9+10+3 (all upper loudspeakers at distance 1 +- 1 ulp) the group order is decided by rounding "
+    "noise and not by the documented front/back tie-break (energy goes to U+000/U+180 before U+-045/U+-135; the "
+    "harness classifier admits every order the documented keys do not force); renderCartLock / renderPolarLock are "
+    "defined without shape guards (equal table lengths are theorem "
+    "hypotheses and table obligations).",
+    technique="Lean 4 proofs over list models (induction, grind, Mathlib order/sqrt lemmas over R, Rat->R cast lemmas "
+    "so that decide +kernel evaluations on regenerated tables feed the R theorems) + decide +kernel over regenerated "
+    "layout tables + differential correspondence with the real functions and whole renders (pans captured inside the "
+    "real call) + direct-predicate search on GainCalc.render with independent classifiers for both recorded findings",
     design_ref="DESIGN.md section 4, C13; section 6 item 6",
 )
